@@ -16,6 +16,7 @@
 import DltVerif.Model.Fixed
 import DltVerif.Lemmas.Round53
 import DltVerif.Lemmas.FixedExact
+import DltVerif.Lemmas.NearestDouble
 
 namespace Dlt
 
@@ -152,12 +153,14 @@ theorem FixedPointValue.toInt_ge (o : FixedPointValue) : -(2 ^ 63 : Int) ≤ o.t
   | i32 v => have := BitVec.le_toInt v; simp only [FixedPointValue.toInt]; omega
   | i64 v => have := BitVec.le_toInt v; simp only [FixedPointValue.toInt]; omega
 
-/-- THE PROPERTY AGAINST EXACT ARITHMETIC.  `Spec.realValue` (Spec/Fixed.lean) computes
-    `value x quantization + offset` in exact integer / dyadic arithmetic and speaks only where
-    double precision is exact (the value and the product have at most 53 significant bits),
-    the product is not negative and the sum lies in `0 .. 2^63`.  Wherever it speaks, the
-    model of the conversion — with its rounding, its saturating cast and its wrapping
-    addition — yields exactly that number. -/
+/-- THE PROPERTY AGAINST THE IEEE DEFINITION.  `Spec.realValue` (Spec/Fixed.lean) computes
+    `value x quantization + offset` on values: `value as f64` and the double product are
+    `Spec.nearestDouble` (the nearest representable number, ties to the even significand, as
+    IEEE 754 defines the default rounding), the cast truncates, the offset is added in the
+    integers.  It speaks whenever the product is not negative and the sum lies in `0 .. 2^63`
+    — exactly the property's premise.  Wherever it speaks, the model of the conversion code —
+    with its significand / exponent rounding, its saturating cast and its wrapping addition —
+    yields exactly that number. -/
 theorem C18_exact (a : Argument) (n : Nat) (h : Spec.realValue a = .exactly n) :
     a.toRealValue = some n := by
   unfold Spec.realValue at h
@@ -173,36 +176,31 @@ theorem C18_exact (a : Argument) (n : Nat) (h : Spec.realValue a = .exactly n) :
         simp only [] at h
         split at h
         · cases h
-        · rename_i hfit
+        · rename_i hs
+          rw [Spec.offsetOf_eq] at h
+          generalize hpd : (if e ≥ 0 then Spec.nearestDouble (Spec.nearestDouble v.natAbs * m) * 2 ^ e.toNat
+                        else Spec.nearestDouble (Spec.nearestDouble v.natAbs * m) / 2 ^ (-e).toNat) = p at h
           split at h
+          · rename_i hsum
+            cases h
+            subst hpd
+            have hge := FixedPointValue.toInt_ge fp.offset
+            have hp : (if e ≥ 0 then Spec.nearestDouble (Spec.nearestDouble v.natAbs * m) * 2 ^ e.toNat
+                        else Spec.nearestDouble (Spec.nearestDouble v.natAbs * m) / 2 ^ (-e).toNat)
+                      < 2 ^ 64 := by
+              generalize (if e ≥ 0 then Spec.nearestDouble (Spec.nearestDouble v.natAbs * m) * 2 ^ e.toNat
+                        else Spec.nearestDouble (Spec.nearestDouble v.natAbs * m) / 2 ^ (-e).toNat) = p at hsum
+              omega
+            have hs' : ¬ (Spec.nearestDouble (Spec.nearestDouble v.natAbs * m) ≠ 0
+                ∧ ((decide (v < 0)) != qneg) = true) := by
+              simpa using hs
+            have htp := truncatedProduct_spec v fp.quantization qneg m e hq hs' hp
+            have hkind : (∃ w, a.typeInfo.kind = .signedFixedPoint w) ∨
+                (∃ w, a.typeInfo.kind = .unsignedFixedPoint w) := by
+              cases hkk : a.typeInfo.kind <;> simp_all [Spec.isFixedPointKind]
+            have := C18_sum a fp v hkind hf hv (by rw [htp]; exact hsum.1) (by rw [htp]; exact hsum.2)
+            rw [this, htp]
           · cases h
-          · rename_i hs
-            rw [Spec.offsetOf_eq] at h
-            generalize hpd : (if e ≥ 0 then v.natAbs * m * 2 ^ e.toNat
-                          else v.natAbs * m / 2 ^ (-e).toNat) = p at h
-            split at h
-            · rename_i hsum
-              cases h
-              subst hpd
-              have hfit1 : Spec.fits53 v.natAbs = true := by
-                cases hb : Spec.fits53 v.natAbs <;> simp_all
-              have hfit2 : Spec.fits53 (v.natAbs * m) = true := by
-                cases hb : Spec.fits53 (v.natAbs * m) <;> simp_all
-              have hge := FixedPointValue.toInt_ge fp.offset
-              have hp : (if e ≥ 0 then v.natAbs * m * 2 ^ e.toNat
-                          else v.natAbs * m / 2 ^ (-e).toNat) < 2 ^ 64 := by
-                generalize (if e ≥ 0 then v.natAbs * m * 2 ^ e.toNat
-                          else v.natAbs * m / 2 ^ (-e).toNat) = p at hsum
-                omega
-              have hs' : ¬ (v.natAbs * m ≠ 0 ∧ ((decide (v < 0)) != qneg) = true) := by
-                simpa using hs
-              have htp := truncatedProduct_exact v fp.quantization qneg m e hq hfit1 hfit2 hs' hp
-              have hkind : (∃ w, a.typeInfo.kind = .signedFixedPoint w) ∨
-                  (∃ w, a.typeInfo.kind = .unsignedFixedPoint w) := by
-                cases hkk : a.typeInfo.kind <;> simp_all [Spec.isFixedPointKind]
-              have := C18_sum a fp v hkind hf hv (by rw [htp]; exact hsum.1) (by rw [htp]; exact hsum.2)
-              rw [this, htp]
-            · cases h
   · cases h
 
 /-- ... and wherever the exact-arithmetic reference says "nothing", the model yields nothing -/
@@ -222,9 +220,7 @@ theorem C18_exact_nothing (a : Argument) (h : Spec.realValue a = .nothing) :
   · cases h
   · split at h
     · cases h
-    · split at h
-      · cases h
-      · split at h <;> split at h <;> cases h
+    · split at h <;> split at h <;> cases h
 
 -- non-vacuity: degrees Celsius example of the source comment (7785 * 0.01 - 50 = 27),
 -- and the input that used to panic (1000 * 1.0 - 200 = 800)
@@ -235,8 +231,23 @@ example : Argument.toRealValue
       fixedPoint := some { quantization := 0x3f800000#32, offset := .i32 (BitVec.ofInt 32 (-200)) },
       value := .i32 1000#32 } = some 800 := by decide
 
--- non-vacuity of `C18_exact`: the exact-arithmetic reference speaks on the Celsius example
--- (7785 * 0.01f32 = 77.849..., truncated 77, minus 50)
+/-- the rounding definition of the Spec and the model's rounding denote the same number,
+    for every integer -/
+theorem C18_rounding (m : Nat) (e : Int) :
+    ∃ k q : Nat, round53 m e = (q, e + (k : Int)) ∧ q * 2 ^ k = Spec.nearestDouble m :=
+  round53_value m e
+
+/-- rounding commutes with scaling by a power of two -/
+theorem C18_rounding_scale (a j : Nat) :
+    Spec.nearestDouble (a * 2 ^ j) = Spec.nearestDouble a * 2 ^ j :=
+  nearestDouble_scale a j
+
+-- non-vacuity of `C18_exact`: the reference speaks on the Celsius example
+-- (7785 * 0.01f32 = 77.849..., truncated 77, minus 50), and on an input where both roundings
+-- are inexact (2^64 - 1 rounds to 2^64; times 0.1f32, a 24-bit significand)
+example : Spec.nearestDouble (2 ^ 64 - 1) = 2 ^ 64 := by decide +kernel
+example : Spec.nearestDouble (2 ^ 53 + 1) = 2 ^ 53 := by decide +kernel
+example : Spec.nearestDouble (2 ^ 53 + 3) = 2 ^ 53 + 4 := by decide +kernel
 example : Spec.realValue
     { typeInfo := { kind := .signedFixedPoint .w32, coding := .ascii, hasVariableInfo := false,
                     hasTraceInfo := false },
